@@ -61,6 +61,58 @@ Section Midpoint.
     intros dt u v fint U Hdt Hup Heq Hdg. induction n as [|n IH]. reflexivity.
     rewrite <- IH. eapply midpoint_step_energy_partial; eauto.
   Qed.
+
+  (* PERTURBED version — what the code actually computes: Newton stops with a non-zero residual.  The residual functional
+     r(w) = m((v1-v0)/dt, w) + fint(w) is not assumed to vanish; the energy defect of the step IS r(u1 - u0), hence bounded by
+     tol * |u1 - u0| as soon as |r(w)| <= tol * |w| (|.| any function V -> R, e.g. the Euclidean norm of the dof vector, for
+     which |r(w)| <= ||R||_2 ||w||_2 and ||R||_2 <= absTol is the Newton stopping test). *)
+  Theorem midpoint_step_energy_defect :
+    forall (dt : R) (u0 u1 v0 v1 : V) (fint : V -> R) (U0 U1 : R),
+      dt <> 0 ->
+      sub u1 u0 = sc (dt / 2) (add v0 v1) ->
+      fint (sub u1 u0) = U1 - U0 ->
+      (kinetic v1 + U1) - (kinetic v0 + U0) = m (sc (1 / dt) (sub v1 v0)) (sub u1 u0) + fint (sub u1 u0).
+  Proof.
+    intros dt u0 u1 v0 v1 fint U0 U1 Hdt Hup Hdg.
+    rewrite Hdg. rewrite Hup.
+    rewrite m_sc, m_sub.
+    rewrite (m_sym v1 (sc (dt / 2) (add v0 v1))), (m_sym v0 (sc (dt / 2) (add v0 v1))).
+    rewrite !m_sc, !m_add. rewrite (m_sym v1 v0).
+    unfold kinetic. field. assumption.
+  Qed.
+
+  Theorem midpoint_step_energy_perturbed :
+    forall (nrm : V -> R) (tol dt : R) (u0 u1 v0 v1 : V) (fint : V -> R) (U0 U1 : R),
+      dt <> 0 ->
+      sub u1 u0 = sc (dt / 2) (add v0 v1) ->
+      (forall w, Rabs (m (sc (1 / dt) (sub v1 v0)) w + fint w) <= tol * nrm w) ->     (* Newton stopped at residual <= tol *)
+      fint (sub u1 u0) = U1 - U0 ->
+      Rabs ((kinetic v1 + U1) - (kinetic v0 + U0)) <= tol * nrm (sub u1 u0).
+  Proof.
+    intros nrm tol dt u0 u1 v0 v1 fint U0 U1 Hdt Hup Hres Hdg.
+    rewrite (midpoint_step_energy_defect dt u0 u1 v0 v1 fint U0 U1 Hdt Hup Hdg). apply Hres.
+  Qed.
+
+  (* over n steps the defects add up: |E_n - E_0| <= tol * sum_k |u_{k+1} - u_k| *)
+  Fixpoint path_length (nrm : V -> R) (u : nat -> V) (n : nat) : R :=
+    match n with O => 0 | S k => path_length nrm u k + nrm (sub (u (S k)) (u k)) end.
+
+  Theorem midpoint_energy_perturbed :
+    forall (nrm : V -> R) (tol dt : R) (u v : nat -> V) (fint : nat -> V -> R) (U : nat -> R),
+      dt <> 0 ->
+      (forall n, sub (u (S n)) (u n) = sc (dt / 2) (add (v n) (v (S n)))) ->
+      (forall n w, Rabs (m (sc (1 / dt) (sub (v (S n)) (v n))) w + fint n w) <= tol * nrm w) ->
+      (forall n, fint n (sub (u (S n)) (u n)) = U (S n) - U n) ->
+      forall n, Rabs ((kinetic (v n) + U n) - (kinetic (v 0%nat) + U 0%nat)) <= tol * path_length nrm u n.
+  Proof.
+    intros nrm tol dt u v fint U Hdt Hup Hres Hdg. induction n as [|n IH].
+    - simpl. replace (kinetic (v 0%nat) + U 0%nat - (kinetic (v 0%nat) + U 0%nat)) with 0 by ring. rewrite Rabs_R0. lra.
+    - simpl path_length.
+      pose proof (midpoint_step_energy_perturbed nrm tol dt (u n) (u (S n)) (v n) (v (S n)) (fint n) (U n) (U (S n)) Hdt (Hup n) (Hres n) (Hdg n)) as Hs.
+      replace (kinetic (v (S n)) + U (S n) - (kinetic (v 0%nat) + U 0%nat))
+        with ((kinetic (v (S n)) + U (S n) - (kinetic (v n) + U n)) + (kinetic (v n) + U n - (kinetic (v 0%nat) + U 0%nat))) by ring.
+      eapply Rle_trans; [apply Rabs_triang|]. lra.
+  Qed.
 End Midpoint.
 
 (* non-vacuity: one degree of freedom, unit mass, quadratic energy U = u^2/2 whose discrete
@@ -72,4 +124,13 @@ Example midpoint_hypotheses_satisfiable :
   fint (4/5 - 0) = (4/5)^2 / 2 - 0^2 / 2 /\ m (3/5) (3/5) / 2 + (4/5)^2 / 2 = m 1 1 / 2 + 0^2 / 2.
 Proof. simpl. repeat split; intros; field. Qed.
 
+(* the perturbed hypotheses are satisfiable with a NON-zero residual: one dof, unit mass, linear spring, v1 slightly off *)
+Example midpoint_perturbed_satisfiable :
+  let m := fun x y : R => x * y in
+  let fint := fun w : R => (0 + 4/5) / 2 * w in
+  forall w : R, Rabs (m (1 / 1 * (61/100 - 1)) w + fint w) <= (1/100) * Rabs w.
+Proof. intros m fint w. unfold m, fint. replace (1 / 1 * (61 / 100 - 1) * w + (0 + 4 / 5) / 2 * w) with ((1/100) * w) by field.
+  rewrite Rabs_mult. rewrite (Rabs_right (1/100)) by lra. lra. Qed.
+
 Print Assumptions midpoint_energy_partial.
+Print Assumptions midpoint_energy_perturbed.
